@@ -30,7 +30,7 @@ SPEC = 'MCZBlob'
 DESIGN_INV = ['TypeOK', 'NoViolation', 'UncommittedInvisible', 'SnapshotsReadable', 'NothingLeftBehind', 'DerivedExact']
 DESIGN_PROPS = ['CommittedFilesImmutable', 'PackRemovesExactly']
 REPAIRED = dict(AbortNeedsVote=False, NonUndoPack=False, SpbPerSerial=False, ForeignAbortCleans=False, LateBookkeeping=False,
-                CopyFailUntracked=False)
+                CopyFailUntracked=False, StoreFaultUntracked=False, PackIgnoresInFlight=False, StoreFailLeaks=False, UndoTempLeaks=False, PackWipesOidDir=False)
 FLAVOURS = ('mixin', 'wrapmap', 'wrapfile')
 UNDO = ('mixin', 'wrapfile')          # flavours with DB.undo; 'wrapfile' has no pack in the model
 
@@ -45,6 +45,14 @@ DEVIATIONS = {
     'LateBookkeeping': ('late-bookkeeping', ('wrapmap', 'wrapfile'), 'NextRace', dict(NBlob=1, Atoms=('a',), MaxTid=5, MaxSp=1), 'NoViolation'),
     'CopyFailUntracked': ('failed-undo-copy', ('wrapfile',), 'NextRace', dict(NBlob=1, Atoms=('a',), MaxTid=5, MaxSp=1), 'NoViolation'),
 }
+DEVIATIONS.update({
+    # _blob_storeblob lists the file only after rename + chmod; the wrapper's blob pack ignores a commit in progress
+    'StoreFaultUntracked': ('failed-storeblob', FLAVOURS, 'NextRace', dict(NBlob=1, Atoms=('a',), MaxTid=4, MaxSp=1), 'NoViolation'),
+    'StoreFailLeaks': ('tmp-working-copy', FLAVOURS, 'NextTxn', dict(NBlob=1, Atoms=('a',), MaxTid=5, MaxSp=1), 'NoViolation'),
+    'UndoTempLeaks': ('tmp-undo-temp', ('mixin',), 'NextRace', dict(NBlob=1, Atoms=('a',), MaxTid=5, MaxSp=1), 'NoViolation'),
+    'PackWipesOidDir': ('pack-wipes-oid-directory', ('mixin',), 'NextHist', dict(NBlob=1, Atoms=('a',), MaxTid=6, MaxSp=1), 'NoViolation'),
+    'PackIgnoresInFlight': ('pack-during-commit', ('wrapmap',), 'NextRace', dict(NBlob=1, Atoms=('a',), MaxTid=5, MaxSp=1), 'NoViolation'),
+})
 WRAPPERS = ('wrapmap', 'wrapfile')
 WRONG = ('store', 'storeBlob', 'tpc_vote', 'tpc_finish', 'tpc_abort')
 TEXT = {
@@ -59,6 +67,13 @@ TEXT = {
                                         'dirty_oids bookkeeping ran after the commit lock had been released',
     'file-left-by-late-bookkeeping': 'a blob file of an aborted transaction remains: its dirty_oids entry was forgotten by the finish / '
                                      'abort bookkeeping of another transaction that ran after the commit lock had been released',
+    'file-left-by-failed-storeblob': 'the <oid>/<tid>.blob that storeBlob had moved into place before it failed (os.chmod) remains after the abort',
+    'file-removed-by-pack-wiping-oid-directory': 'pack removed the whole blob directory of an object that was unreachable at the pack time, '
+                                                 'the file of a revision written after the pack time (whose record it keeps) included',
+    'file-removed-by-pack-during-commit': 'a pack of the wrapper that ran while a commit was between storeBlob and tpc_finish took the '
+                                          'uncommitted file for the newest one (or for garbage): a committed revision has no blob file',
+    'working-copy-left-in-tmp': 'the working copy (tmp/BUC*) handed over to a storeBlob that failed remains in <blob_dir>/tmp for good',
+    'undo-temp-left-in-tmp': 'the temporary file of an undo whose blob copy failed remains in <blob_dir>/tmp',
     'file-left-by-failed-undo-copy': 'the partly written <oid>/<undo tid>.blob of an undo() whose blob copy failed remains after the abort',
 }
 
@@ -225,6 +240,31 @@ def directed(flavour, quick=False, packs_only=False):
                         S.append(two + bs.rewrite(3, 'b') + bs.other_tpc(2, 'a', end2) + bs.commit(end, at={phase: bs.late()}) + bs.append(3, 'a') + bs.commit())
                 S.append(two + bs.rewrite(3, 'b') + bs.other_tpc(2, 'a', end2) + bs.late() + bs.commit(end) + bs.commit())
                 S.append(two + bs.create(('a',)) + bs.other_tpc(2, 'a', end2) + bs.commit(end) + bs.late() + bs.rewrite(2, 'b') + bs.commit())
+    # a file handle kept open across an abort / across another connection's commit and the next transaction boundary
+    two_ = first + bs.create(('b',)) + bs.commit()
+    for tail in (bs.rewrite(2, 'b') + bs.commit(), bs.append(2, 'a') + bs.commit('vote'), bs.close_all() + bs.consume(2, 'b') + bs.commit()):
+        S.append(two_ + bs.open_write(2, 'b') + bs.abort_txn() + tail + bs.pack(0))
+        S.append(two_ + bs.modify_p('v2') + bs.open_write(3, 'a') + bs.other(3, 'b') + bs.abort_txn() + tail)
+        S.append(two_ + bs.open_read(2) + bs.other(2, 'b') + bs.boundary() + tail + bs.pack(0))
+        S.append(two_ + bs.open_read(2) + bs.other(3, 'b') + bs.boundary() + bs.other(2, 'a') + bs.boundary() + tail)
+        S.append(two_ + bs.modify_p('v2') + bs.open_read(2) + bs.other(2, 'b') + bs.abort_txn() + bs.close_all() + tail)
+        S.append(two_ + bs.open_write(2, 'b') + bs.close_all() + bs.open_read(3) + bs.close_all() + bs.commit() + bs.open_read(2) + bs.boundary() + tail)
+    # the first storeBlob of a commit meets a failing os.chmod after the file was moved into place
+    for pre in (bs.rewrite(2, 'b'), bs.create(('b',)), bs.modify_p('v2') + bs.append(2, 'b'), bs.rewrite(2, 'b') + bs.savepoint() + bs.create(('a',))):
+        S.append(first + pre + bs.commit_fault() + bs.append(2, 'a') + bs.commit() + bs.commit_fault() + bs.pack(0))
+    # a blob taken out of the root object, later rewritten and put back by the connection that still holds it; packs in between
+    for t in range(-3, 1):
+        P.append(first + bs.unlink(2) + bs.commit() + bs.rewrite(2, 'b') + bs.relink(2) + bs.commit() + bs.pack(t) + bs.append(2, 'a') + bs.commit() + bs.pack(0))
+        P.append(first + bs.unlink(2) + bs.commit() + bs.other(2, 'b') + bs.pack(t) + bs.relink(2) + bs.commit() + bs.pack(t) + bs.pack(0))
+        P.append(two_ + bs.unlink(2) + bs.unlink(3) + bs.commit() + bs.pack(t) + bs.relink(3) + bs.rewrite(3, 'a') + bs.commit() + bs.pack(0))
+    if flavour == 'wrapmap':
+        # a pack of the wrapper while a commit is between storeBlob and tpc_finish, for every end of that commit
+        for end in ('finish', 'vote', 'store'):
+            for phase in ('store', 'vote'):
+                if not (end == 'store' and phase == 'vote'):
+                    for t in (0, -1):
+                        P.append(two_ + bs.other(2, 'b') + bs.rewrite(2, 'a') + bs.commit(end, at={phase: bs.pack_during(t)}) + bs.append(3, 'a') + bs.commit())
+                        P.append(two_ + bs.create(('a',)) + bs.commit(end, at={phase: bs.pack_during(t)}) + bs.append(3, 'a') + bs.commit())
     if flavour in UNDO:
         # one write of the blob copy inside undo() fails; afterwards the same undo succeeds
         S.append(first + bs.other(2, 'b') + bs.undo_copy_fail(0) + bs.undo(0) + bs.undo_copy_fail(0) + bs.undo(0) + bs.append(2, 'a') + bs.commit())
@@ -281,8 +321,10 @@ def random_script(rng, flavour, nblob):
             return bs.rewrite(b, rng.choice(X))
         if r < 0.64:
             return bs.append(b, rng.choice(X))
-        if r < 0.78:
+        if r < 0.74:
             return bs.consume(b, rng.choice(X))
+        if r < 0.78:
+            return rng.choice((bs.open_write(b, rng.choice(X)), bs.open_read(b))) + rng.choice(([], bs.close_all(), bs.other(b, rng.choice(X)) + bs.boundary()))
         if r < 0.86:
             return bs.consume_fail(b)
         return bs.modify_p(rng.choice(('v1', 'v2')))
@@ -310,9 +352,14 @@ def random_script(rng, flavour, nblob):
                 at[phase] = bs.wrong(rng.choice(WRONG))
             elif flavour in WRAPPERS and rng.random() < 0.12:
                 at[phase] = bs.late()
+        if flavour == 'wrapmap' and rng.random() < 0.1:
+            at.setdefault(rng.choice(('store', 'vote')), []).extend(bs.pack_during(-rng.randint(0, 2)))
         if r < 0.08:
             s += bs.abort_txn()
+        elif r < 0.12:
+            s += bs.close_all() + bs.commit_fault()
         else:
+            s += bs.close_all()
             s += bs.commit('finish' if r < 0.6 else rng.choice(ENDS[1:]), at=at)
         s += bs.late()
         r = rng.random()
@@ -354,6 +401,12 @@ def to_script(sig):
             out.append({'a': name, 't': int(args[0])})
         elif name == 'Wrong':
             out.append({'a': name, 'm': args[0]})
+        elif name == 'PackDuring':
+            out.append({'a': name, 'T': int(args[0])})
+        elif name == 'OpenWrite':
+            out.append({'a': name, 'b': int(args[0]), 'x': args[1]})
+        elif name in ('OpenRead', 'Unlink', 'Relink'):
+            out.append({'a': name, 'b': int(args[0])})
         elif name in ('OtherAbort', 'OtherFinish'):
             out.append({'a': name, 'b': int(args[0]), 'x': args[1]})
         elif name == 'Pack':
@@ -556,7 +609,7 @@ def run(ctx):
     for fl in FLAVOURS:
         need = [x for x in bd.ALL_ACTIONS if (fl in UNDO or not x.startswith('U')) and (fl != 'wrapfile' or x != 'Pack')
                 and (fl in WRAPPERS or x not in ('OtherAbort', 'OtherFinish', 'Late'))
-                and (x != 'Late' or as_code[fl]['LateBookkeeping'])]      # (no late turn in the repaired model)
+                and (x != 'Late' or as_code[fl]['LateBookkeeping']) and (x != 'PackDuring' or fl == 'wrapmap')]      # (no late turn in the repaired model)
         miss = [x for x in need if not cov['actions'][fl].get(x)]
         if miss and not cov['mismatches']:
             raise RuntimeError('%s: actions never replayed: %s' % (fl, miss))
